@@ -36,12 +36,6 @@ OrderFromDealer(g) == [k \in 1..g.n |-> (DealerOf(g) + k - 1) % g.n]
 
 ResetPlayers(g) == [g EXCEPT !.P = [i \in Seats(g) |-> [g.P[i] EXCEPT !.acted = FALSE, !.allowed = <<>>]]]
 
-ResetAllPlayerStatus(g) ==
-  [g EXCEPT !.P = [i \in Seats(g) |->
-     LET p == g.P[i] IN
-     [p EXCEPT !.allowed = <<>>, !.pot = p.pot + p.wager, !.wager = 0, !.init = p.stack,
-               !.did = IF p.fold THEN "fold" ELSE IF p.stack = 0 THEN "allin" ELSE ""]]]
-
 ResetRoundStatus(g) ==
   [g EXCEPT !.prs = 0, !.maxWager = 0, !.roundPot = 0, !.cw = 0, !.raiser = DealerOf(g), !.cur = DealerOf(g)]
 
